@@ -391,6 +391,14 @@ func c12Run(rc *RunCtx, params any) {
 
 			return
 		}
+		// the fragments are a partition: as many as the body needs at this MTU, none of them empty
+		// (a body-less message is one fragment of length 0)
+		want := max(1, (len(bodies[m])+p.MTU-1)/p.MTU)
+		if len(raw) != want {
+			rc.Violate("sender-count", "message %d (len %d, MTU %d) was sent as %d fragments; a partition into fragments of at most MTU bytes has %d (an empty or a split-too-early fragment is on the wire)", m, len(bodies[m]), p.MTU, len(raw), want)
+
+			return
+		}
 		if len(raw) > 1 {
 			s.Probe("sender-fragmented")
 		}
